@@ -33,7 +33,7 @@ TIERS = {
 FLOORS = {"quick": {"distinct_nontrivial": 1200, "included_at_entries_observed": 3000,
                     "component_build_x_parent_branch_decisions": 5000, "dependency_graphs": 1000,
                     "cyclic_graphs_rejected": 300, "parent_builds_reported_without_own_commit": 100},
-          "thorough": {"distinct_nontrivial": 40000, "included_at_entries_observed": 100000,
+          "thorough": {"distinct_nontrivial": 25000, "included_at_entries_observed": 100000,
                        "component_build_x_parent_branch_decisions": 200000, "dependency_graphs": 40000,
                        "cyclic_graphs_rejected": 10000, "parent_builds_reported_without_own_commit": 4000}}
 LEVEL_TEXT = ("Runtime exploration with a graph oracle over generated two-repository histories and generated "
